@@ -993,7 +993,7 @@ postfixexpr(struct scope *s, struct expr *r)
 				if (p)
 					p = p->next;
 			}
-			if (p && !t->u.func.isvararg)
+			if (p)
 				error(&tok.loc, "not enough arguments for function call");
 			e = decay(e);
 			next();
